@@ -514,6 +514,18 @@ class FnIntervals:
         return None
 
     def eval(self, n, st):
+        r = self._eval0(n, st)
+        # a range established for this very expression by a dominating test (`address - page->address < K`)
+        if n is not None and n['k'] == 'BinaryOperator' and n.get('op') in ('-', '+'):
+            if any(isinstance(k_, tuple) and k_[0] == 'RNE' for k_ in st):
+                ek = self.expr_key(n)
+                if ek and ('RNE', ek[0]) in st:
+                    m = meet(r, st[('RNE', ek[0])][0])
+                    if not is_empty(m):
+                        r = m
+        return r
+
+    def _eval0(self, n, st):
         if n is None:
             return TOP
         v = const(n)
@@ -834,7 +846,7 @@ class FnIntervals:
         return r
 
     def _kill_deps(self, st, pred):
-        dead = [k for k, v in st.items() if isinstance(k, tuple) and k[0] == 'NZE' and any(pred(x) for x in v[1])]
+        dead = [k for k, v in st.items() if isinstance(k, tuple) and k[0] in ('NZE', 'RNE') and any(pred(x) for x in v[1])]
         for k in dead:
             del st[k]
 
@@ -874,6 +886,17 @@ class FnIntervals:
                         pa = self.fn.parent.get(a['i'])
                         if a['k'] == 'ImplicitCastExpr' and a.get('ck') == 'LValueToRValue':
                             continue
+                    # an integer passed by value (the argument is read through an lvalue-to-rvalue conversion, possibly
+                    # widened) cannot expose the object it was read from: `write8(address++, uf2_block.data[n])`
+                    x_ = a
+                    byval = False
+                    while x_ is not None and x_['k'] in ('ParenExpr', 'ImplicitCastExpr', 'CStyleCastExpr'):
+                        if x_['k'] == 'ImplicitCastExpr' and x_.get('ck') == 'LValueToRValue':
+                            byval = type_range(self.fn.type(x_)) != TOP
+                            break
+                        x_ = kids(x_)[0] if kids(x_) else None
+                    if byval:
+                        continue
                     for d in self._roots_in(a):
                         if d in roots:
                             self._kill_root(st, d)
@@ -1075,6 +1098,28 @@ class FnIntervals:
                     ek = self.expr_key(l)
                     if ek:
                         st2[('NZE', ek[0])] = (True, ek[1])
+                elif o in ('<', '<=', '>', '>=', '=='):
+                    l2 = strip(l, casts=True)
+                    if l2['k'] == 'BinaryOperator' and l2.get('op') in ('-', '+'):
+                        ek = self.expr_key(l2)
+                        rv = self.eval(rhs, st)
+                        if ek and not any(x_['k'] in ('CallExpr', 'CXXMemberCallExpr') for x_ in _walk(rhs)):
+                            cur = self.eval(l2, st2)
+                            new = cur
+                            if o == '<' and rv[1] is not None:
+                                new = meet(cur, (None, rv[1] - 1))
+                            elif o == '<=' and rv[1] is not None:
+                                new = meet(cur, (None, rv[1]))
+                            elif o == '>' and rv[0] is not None:
+                                new = meet(cur, (rv[0] + 1, None))
+                            elif o == '>=' and rv[0] is not None:
+                                new = meet(cur, (rv[0], None))
+                            elif o == '==':
+                                new = meet(cur, rv)
+                            if is_empty(new):
+                                return None
+                            if new != cur:
+                                st2[('RNE', ek[0])] = (new, ek[1])
             return st2
         vid = self._vid(strip(c, casts=False))
         if vid is None:
@@ -1116,6 +1161,14 @@ class FnIntervals:
             return True
         x = expr
         while x is not None and x['k'] in ('ImplicitCastExpr', 'ParenExpr') and kids(x):
+            if x['k'] == 'ImplicitCastExpr':
+                # a narrowing conversion can turn a non-zero value into zero (0x0100 -> uint8_t): the fact about the
+                # wide value says nothing about the narrow one
+                to, frm = type_range(self.fn.type(x)), type_range(self.fn.type(kids(x)[0]))
+                if to != TOP and frm != TOP and to[1] is not None and frm[1] is not None and to[1] < frm[1]:
+                    sv = self.eval(kids(x)[0], st)
+                    if not (sv[0] is not None and sv[1] is not None and sv[0] >= to[0] and sv[1] <= to[1]):
+                        return False
             x = kids(x)[0]
         vid = self._vid(x) if x is not None else None
         if vid is not None and ('NZ', vid) in st:
